@@ -215,6 +215,16 @@ def run_case(case, ctx):
     za = Fxp([inr[0], inr[1], inr[2]], s, n, nf, raw=True)
     c11.roundtrip(ctx, za, s, n, nf)
     _try(lambda: ~za)
+    # two-dimensional arrays of python integers that are not C-contiguous (a transposed view, Fortran order): every code stays at its own position
+    oa = np.empty(6, dtype=object)
+    oa[:] = [hi, 1, lo, inr[0], inr[1], 0]
+    oa = oa.reshape(2, 3)
+    for arr_ in (oa.T, np.asfortranarray(oa), oa[:, ::-1]):
+        _try(lambda: Fxp(arr_, s, n, nf, raw=True, overflow=o))
+        yz = Fxp(None, s, n, nf, overflow=o)
+        _try(lambda: yz.set_val(arr_, raw=True))
+        if nf == 0:
+            _try(lambda: Fxp(arr_, s, n, 0, overflow=o))
     zb = Fxp([[hi, 1], [lo, inr[0]]], s, n, nf, raw=True)        # codes beyond 2^63 next to short ones
     c11.roundtrip(ctx, zb, s, n, nf)
     # objects derived from a wide one keep the indicator
